@@ -89,6 +89,7 @@ def errOfName (s : String) : Option Err :=
 
 def parseWire (toks : List String) : Option Wire :=
   match toks with
+  | ["EMPTY"] => some Wire.empty
   | [t] => match t.toList with
     | 'G' :: cs => (errOfName (String.ofList cs)).map Wire.garbage
     | _ => (parseValLine toks).map Wire.val
